@@ -657,6 +657,24 @@ def receive(data, cuts, vocab=None, tolerate_abort=False, written=None):
     return ("ok", [s[0] for s in b.got])
 
 
+def receive_lenient(data, vocab=None):
+    """feed `data` in one piece to a storage receiver and report what it delivered even if it recorded a Violation on the way:
+    -> (objects delivered, violation text or None, exception text or None)"""
+    b = RxBanana()
+    b.connectionMade()
+    if vocab is not None:
+        b.populateVocabTable(list(vocab))
+    try:
+        with E.quiet():
+            b.dataReceived(bytes(data))
+            E.turn()
+    except Exception as e:
+        return [s_[0] for s_ in b.got], None, "%s: %s" % (type(e).__name__, str(e)[:160])
+    viol = str(b.violation.value)[:160] if b.violation else None
+    exc = str(b.disconnectReason.value)[:160] if b.disconnectReason else None
+    return [s_[0] for s_ in b.got], viol, exc
+
+
 def chunkings(rng, n, how):
     if how == "one":
         return []
@@ -847,7 +865,7 @@ def match_term(t, obj, env, n, path="root"):
             raise Mismatch("%s: expected RemoteCopy %r, got %s" % (path, name, type(obj).__name__))
     elif type(obj) is not KIND_TYPE[kind]:
         raise Mismatch("%s: expected %s, got %s" % (path, kind, type(obj).__name__))
-    if kind in ("list", "tuple", "dict", "set"):
+    if kind in ("list", "tuple", "dict", "set", "copy"):     # copy: no sender refers to one (trackReferences False); crafted streams do
         for kk, o in env.items():
             if o is obj:
                 raise Mismatch("%s: object opened at %d was already seen at %d: aliasing that the sender did not have" % (path, n, kk))
